@@ -173,6 +173,25 @@ def generate(repo: str) -> str:
         helpers.append((name, "missing" if f is None else helper_target(f)))
     model = tree("lekkersim/model.py")
     classes = {n.name: n for n in model.body if isinstance(n, ast.ClassDef)}
+    # the documented model list: the "Available Models" autosummary of Docs/api_summary.rst, restricted to classes of model.py
+    documented = []
+    try:
+        lines = open(f"{repo}/Docs/api_summary.rst").read().splitlines()
+        k = next(i for i, l in enumerate(lines) if "Available Models" in l)
+        for l in lines[k + 1:]:
+            t = l.strip()
+            if t.startswith(".. autosummary") or not t:
+                if documented and not t and False:
+                    break
+                continue
+            if not l.startswith("    ") :
+                break
+            if t in classes:
+                documented.append(t)
+    except (OSError, StopIteration):
+        raise Unsupported("UNSUPPORTED Docs/api_summary.rst: documented model list not found")
+    if not documented:
+        raise Unsupported("UNSUPPORTED Docs/api_summary.rst: empty documented model list")
     blocks = []
     for b in SWEEP_BLOCKS:
         c = classes.get(b)
@@ -206,7 +225,9 @@ def generate(repo: str) -> str:
             "def blocks : List (String × Bool × String) := ["]
     out.append(",\n".join(f"  ({lean_str(b)}, {'true' if cup else 'false'}, {lean_str(bk)})" for b, cup, bk, _ in blocks) + "]")
     out += ["", "/-- documented basic blocks (C09) -/",
-            "def docBlocks : List String := [" + ", ".join(lean_str(b) for b in DOC_BLOCKS) + "]", "",
+            "def docBlocks : List String := [" + ", ".join(lean_str(b) for b in documented) + "]", "",
+            "/-- the blocks whose closed form the property states -/",
+            "def closedFormBlocks : List String := [" + ", ".join(lean_str(b) for b in DOC_BLOCKS) + "]", "",
             "/-- `Model.solve` copies the matrix returned by `create_S` before collecting it -/",
             f"def modelSolveCopies : Bool := {'true' if copies else 'false'}", "",
             "/-- format specs applied in `__str__` : (class, expression, spec, expression is a float(...) call) -/",
